@@ -61,7 +61,11 @@ def cIncr (m : Mode) (b : Base) (k : Val) : Except Err Base :=
 def cPrim : Prim where
   arith := cArith
   cmp := cCmp
-  coerce := fun _ _ _ _ => .error (.other 8)
+  -- checkTypeCore on values of different Go types.  Strict mode: a non-constant is rejected, and a constant is adapted
+  -- only between two NUMERIC kinds (isNumericKind) — the value model has one numeric kind (int), so two values of
+  -- different types are never both numeric and every such store is ErrInvalidVarType, constant or not.
+  -- Relaxed mode (data.Coerce) is outside the value model.
+  coerce := fun m _ _ _ => if m == .strict then .error .invalidVarType else .error (.other 8)
   incr := cIncr
   storeIdx := fun _ dest _ _ => match dest with
     | .ref _ => none
@@ -96,7 +100,7 @@ theorem C02_incr_law_concrete : IncrLaw cPrim := by
       | .ok r => checkType cPrim st name (.plain r))
       = (match cIncr st.mode b k with
       | .error e => (Except.error e : Except Err Val)
-      | .ok r => .ok (.plain r))
+      | .ok r => checkType cPrim st name (.plain r))
     cases k with
     | plain kb =>
       cases b <;> cases kb <;> simp_all [cArith, cIncr, checkType, checkCore, Val.unwrap, Val.isConst]
